@@ -44,6 +44,14 @@ def log(*a):
 def build_harness(race=False):
     """builds /verif/harness against /repo's current working tree with -tags verif"""
     hdir = os.path.join(ROOT, "harness")
+    if REPO != "/repo":
+        # (internal use: seeded changes tried out on a scratch copy of the repository -- lib/seed_par.sh; the registered
+        # commands never set VERIF_REPO and always build against /repo's working tree)
+        alt = os.path.join(scratch(), "harness_src")
+        shutil.copytree(hdir, alt, dirs_exist_ok=True)
+        gm = open(os.path.join(alt, "go.mod")).read().replace("=> /repo", "=> " + REPO)
+        open(os.path.join(alt, "go.mod"), "w").write(gm)
+        hdir = alt
     shutil.copyfile(os.path.join(REPO, "go.sum"), os.path.join(hdir, "go.sum")) if os.path.exists(
         os.path.join(REPO, "go.sum")) else open(os.path.join(hdir, "go.sum"), "a").close()
     out = os.path.join(scratch(), "harness-race" if race else "harness")
